@@ -7,6 +7,7 @@ import (
 	"fmt"
 	"io"
 	"sort"
+	"strings"
 	"sync"
 	"sync/atomic"
 
@@ -310,7 +311,7 @@ func runC11(c *harness.Case) {
 		return map[string]interface{}{"engine": kind, "steps": h}
 	}
 	var vec []byte
-	nFailedMulti, nBack, nLim, nSlip := 0, 0, 0, 0
+	nFailedMulti, nBack, nLim, nSlip, nInterloped := 0, 0, 0, 0, 0
 
 	// positionedIter returns an iterator positioned on key k (which must exist).
 	positioned := func(k string) (storage.Iter, bool) {
@@ -428,6 +429,31 @@ func runC11(c *harness.Case) {
 			b := kv.BeginBatchWrite()
 			for _, add := range adds {
 				add(b)
+			}
+			if strings.HasPrefix(eng.Kind, "tikv") && len(iters) == 0 && r.Intn(3) == 0 {
+				// another writer commits to a key this batch writes unconditionally, between the batch's begin and its
+				// commit (only where a batch holds no engine lock while it is open): the batch is still all-or-nothing and
+				// comes after that write
+				var unc []string
+				for _, p := range pends {
+					unc = append(unc, p.key)
+				}
+				for _, k := range unc {
+					if !strings.Contains(desc, fmt.Sprintf(" put(%q)", k)) && !strings.Contains(desc, fmt.Sprintf(" del(%q)", k)) {
+						continue
+					}
+					v := newVal()
+					bb := kv.BeginBatchWrite()
+					bb.Put([]byte(k), v, 0)
+					if ierr := bb.Commit(ctx); ierr != nil {
+						c.Violatef("C11 plain-put-failed engine="+eng.Kind, wit(), "Put(%q) error %v", k, ierr)
+						return
+					}
+					ref.m[k] = v
+					desc += fmt.Sprintf(" [another writer put(%q) before the commit]", k)
+					nInterloped++
+					break
+				}
 			}
 			err := b.Commit(ctx)
 			for _, it := range iters {
@@ -626,6 +652,7 @@ func runC11(c *harness.Case) {
 	}
 	c.Stat("steps", int64(len(hist)))
 	c.Stat("failed_multi_op_batches", int64(nFailedMulti))
+	c.Stat("batches_overtaken_by_another_writer_between_begin_and_commit", int64(nInterloped))
 	c.Stat("backward_iterations", int64(nBack))
 	c.Stat("limited_iterations", int64(nLim))
 	c.Stat("iterations_with_writes_slipped_under", int64(nSlip))
